@@ -446,7 +446,7 @@ static int cmd_check(const std::string &id, int tier, uint64_t seed, int64_t run
         Candidate &c = kv.second;
         Known *k = match_known(known, m->id, c.v.sig);
         if (k) {
-            if (!k->seen) { k->seen = true; known_seen++; printf("KNOWN-FINDING: property=%s %s (seen %d times; e.g. run %llu)\n", k->prop.c_str(), k->text.c_str() + 7, sig_count[c.v.sig], (unsigned long long) c.index); }
+            if (!k->seen) { k->seen = true; known_seen++; printf("KNOWN-FINDING: %s (seen %d times; e.g. run %llu)\n", k->text.c_str() + 7, sig_count[c.v.sig], (unsigned long long) c.index); }
             continue;
         }
         if (handled >= 6) { printf("vsim: further distinct signature not minimised (budget): %s\n", c.v.sig.c_str()); new_violations++; continue; }
@@ -468,7 +468,7 @@ static int cmd_check(const std::string &id, int tier, uint64_t seed, int64_t run
         // the minimised plan may have a (narrower) signature of its own: re-check against known findings
         Known *k2 = match_known(known, m->id, vm.sig);
         if (k2) {
-            if (!k2->seen) { k2->seen = true; known_seen++; printf("KNOWN-FINDING: property=%s %s (seen via minimised run %llu)\n", k2->prop.c_str(), k2->text.c_str() + 7, (unsigned long long) c.index); }
+            if (!k2->seen) { k2->seen = true; known_seen++; printf("KNOWN-FINDING: %s (seen via minimised run %llu)\n", k2->text.c_str() + 7, (unsigned long long) c.index); }
             continue;
         }
         if (reported_sigs.count(vm.sig)) { continue; }   // same minimised signature already reported
